@@ -198,9 +198,6 @@ func loadEngine(dir string, overlay map[string][]byte) (*Engine, error) {
 			continue
 		}
 		cf := filepath.Join(filepath.Dir(p.GoFiles[0]), "zz_contracts_verif.go")
-		if data, ok := overlay[cf]; ok {
-			_ = data
-		}
 		if _, err := os.Stat(cf); err != nil {
 			continue
 		}
@@ -265,7 +262,7 @@ func displayName(key string) string {
 func (e *Engine) newExec(fn *ssa.Function, quiet bool) *FnExec {
 	fe := &FnExec{eng: e, script: &Script{}, regs: map[ssa.Value]Val{}, heapSort: map[string]string{}, quiet: quiet,
 		sentinel: map[*ssa.Global]int{}, globals: map[*ssa.Global]Val{}, tids: map[string]int{}, unknown: map[string]int{},
-		used: map[string]bool{}, abstracted: map[string]int{}, phiEdges: map[*ssa.BasicBlock][]phiEdge{}, ifaceType: map[Term]types.Type{}, owned: map[Term]bool{}, boxed: map[Term]Val{}, boxType: map[Term]types.Type{}, wraps: map[Term]Val{}, cbInfo: map[*ssa.Function]*cbState{}}
+		used: map[string]bool{}, abstracted: map[string]int{}, phiEdges: map[*ssa.BasicBlock][]phiEdge{}, ifaceType: map[Term]types.Type{}, owned: map[Term]bool{}, boxed: map[Term]Val{}, guardPtr: map[ssa.Value]*guardRec{}, guardedVals: map[Term]*guardRec{}, boxType: map[Term]types.Type{}, wraps: map[Term]Val{}, cbInfo: map[*ssa.Function]*cbState{}}
 	if fn.Pkg != nil {
 		fe.pkg = fn.Pkg.Pkg
 	} else if fn.Parent() != nil {
@@ -448,7 +445,7 @@ func (e *Engine) verifyFunc(key string, timeoutS, seed int, allSolvers bool, sol
 		}
 		for _, g := range con.Ghosts {
 			site := strings.TrimPrefix(g.After, "before:")
-			if site != "return" {
+			if site != "return" && !strings.HasPrefix(site, "go[") {
 				if _, ok := fr.callIdx[site]; !ok {
 					fe.warns = append(fe.warns, fmt.Sprintf("%s: ghost update refers to call site %s which does not exist", res.Name, site))
 				}
@@ -555,6 +552,31 @@ func (fe *FnExec) setupEntry(fr *frame) {
 		pt := fv.Type().(*types.Pointer).Elem()
 		p := PtrV{Base: fe.declareOnce("cap."+fv.Name(), "Int"), Prefix: "cap." + fv.Name(), Pointee: pt}
 		fe.regs[fv] = p
+		// what a closure captured existed before the closure ran
+		switch cv := fe.load(st, p).(type) {
+		case PtrV:
+			if cv.Cell == nil && cv.Base != "0" {
+				fe.assume(sx("<=", cv.Base, "HW"), "captured object existed at entry")
+			}
+		case RefV:
+			fe.assume(sx("<=", cv.T, "HW"), "captured object existed at entry")
+		}
+	}
+	if isGoTarget(fn) {
+		// a new goroutine holds no lock, unless its contract says the spawner hands one over
+		handed := false
+		if fr.con != nil {
+			for _, rq := range fr.con.Requires {
+				if strings.Contains(rq.Src, "held(") {
+					handed = true
+				}
+			}
+		}
+		if !handed {
+			if _, ok := fe.eng.voc.Ghost["held"]; ok {
+				fe.assume(tEq(fe.heapGet(st, "ghost.held", "Int"), "((as const (Array Int Int)) 0)"), "a new goroutine holds no lock")
+			}
+		}
 	}
 	fr.entry = st
 	if fr.con != nil {
@@ -568,6 +590,32 @@ func (fe *FnExec) setupEntry(fr *frame) {
 		}
 	}
 	fr.entry = st.clone()
+}
+
+// isGoTarget reports whether fn is a function literal started by a go statement of its parent.
+func isGoTarget(fn *ssa.Function) bool {
+	if fn.Parent() == nil {
+		return false
+	}
+	for _, b := range fn.Parent().Blocks {
+		for _, in := range b.Instrs {
+			g, ok := in.(*ssa.Go)
+			if !ok {
+				continue
+			}
+			switch v := g.Call.Value.(type) {
+			case *ssa.MakeClosure:
+				if v.Fn == fn {
+					return true
+				}
+			case *ssa.Function:
+				if v == fn {
+					return true
+				}
+			}
+		}
+	}
+	return false
 }
 
 // elemFacts: called when an element of a parameter slice is loaded.
